@@ -5,6 +5,7 @@ import (
 	"go/ast"
 	"go/constant"
 	"go/token"
+	"go/types"
 	"sort"
 	"strings"
 
@@ -281,6 +282,7 @@ func checkC04(c *Ctx) {
 	r.Rule("R07.3", "(shared with C07) among equal keys the last one given wins: stable sort, consistent comparator")
 	r.Rule("R09.2", "(shared with C09) nothing rendered for one record (keys, numbers, text) is kept in package-level state for another")
 	r.Rule("R02.8", "(shared with C02) hand-written formatters stay inside their scratch tables: fixed-size tables indexed at a computed position have a derivable bound")
+	r.Rule("R16.2", "(shared with C16) the time member identifies the instant: layout decision and layout table (no 12-hour clock without AM/PM, zone printed)")
 	r.Rule("R19.1", "(shared with C19) the record is the bytes the encoder appended: the write side of the formatting buffer (Write*, Grow, Truncate, Reset, Bytes and their helpers) is isomorphic to bytes.Buffer")
 	r.Rule("R15.3", "(shared with C15) attributes arriving through the log/slog handler keep key and value: each kind arm hands on the key and the value read with the accessor of its own kind, groups nested, LogValuers resolved")
 	r.Rule("R15.4", "(shared with C15) every attribute with its own value: handlers derived for log/slog own a fresh copy of the bound field list (siblings do not overwrite each other's attributes)")
@@ -324,6 +326,7 @@ func checkC04(c *Ctx) {
 		c04Elements(c, p, m, mr)
 		c04BuiltinFirst(c, p, m)
 		c04KeysAsGiven(c, p, m, mr)
+		c16Timestamp(c, p, m)
 		countersBalanced(c, p, m, "R04.7")
 		dedupeEquality(c, p, m, "R05.9")
 		c09Globals(c, p, m)
@@ -1010,12 +1013,26 @@ func finiteOnly(b *ssa.BasicBlock, mode Mode) bool {
 					nan = true
 				case cal != nil && cal.String() == "math.IsInf":
 					inf = true
+				case cal != nil && isFinitenessHelper(cal):
+					nan, inf = true, true
 				default:
 					bad = true
 				}
 			default:
 				if mv, ok := modeCond(v, mode); ok && mv {
 					return
+				}
+				// a boolean setting of the encoder that did not exist when the rules were written (an opt-in for bare
+				// numbers): whatever its value, the unquoted branch still needs the finiteness tests
+				if u, isU := v.(*ssa.UnOp); isU {
+					v = u
+				}
+				if base, _, fv, isF := fieldLoad(strip(v)); isF && typeName(base.Type()) == "PrintCtx" {
+					if ref := loadAnchorRef(); ref != nil && ref["field|slog|PrintCtx|"+nm(fv)] == nil {
+						if bt, isB := fv.Type().Underlying().(*types.Basic); isB && bt.Kind() == types.Bool {
+							return
+						}
+					}
 				}
 				bad = true
 			}
@@ -1375,4 +1392,25 @@ func c04KeysAsGiven(c *Ctx, p *Prog, m *Model, mr *ModeReach) {
 	sort.Strings(hits)
 	r.Check(len(hits) == 0, "R04.6", "keys-as-given[json]", "-", fmt.Sprintf("none of the %d dotted-key sites is feasible in JSON mode", nCalls),
 		"in JSON mode a member key is formed with DotPrefix ("+strings.Join(hits, "; ")+"): members of a group come out as \"g.a\" inside the object \"g\", so they do not decode under the key they were logged with")
+}
+
+// isFinitenessHelper: a private predicate that calls math.IsNaN and math.IsInf on its parameter and nothing else
+// ("is this float a finite number").
+func isFinitenessHelper(fn *ssa.Function) bool {
+	if fn == nil || len(fn.Blocks) == 0 || len(fn.Params) != 1 || fn.Signature.Results().Len() != 1 {
+		return false
+	}
+	nan, inf := false, false
+	for _, cs := range callsIn(fn) {
+		cal := calleeOf(cs)
+		switch {
+		case cal != nil && cal.String() == "math.IsNaN":
+			nan = true
+		case cal != nil && cal.String() == "math.IsInf":
+			inf = true
+		default:
+			return false
+		}
+	}
+	return nan && inf
 }
